@@ -581,7 +581,16 @@ def project_namedtuples(tree):
                 plans.append(got)
             if not plans:
                 continue
-            loc = dict((f, '%s__%s' % (v, f)) for f in fields)
+            # a projected field is named after the field when the function holds one record only and that name is free in the
+            # whole function (the code then reads as if the options had been plain locals), ``<variable>__<field>`` otherwise
+            import keyword
+            used = set(z.id for z in ast.walk(fn) if isinstance(z, ast.Name)) | set(z.arg for z in ast.walk(fn) if isinstance(z, ast.arg)) | \
+                set(nm for z in ast.walk(fn) if isinstance(z, (ast.Global, ast.Nonlocal)) for nm in z.names) | \
+                set(z.name for z in ast.walk(fn) if isinstance(z, (ast.FunctionDef, ast.AsyncFunctionDef, ast.ClassDef))) | \
+                set((a.asname or a.name).split('.')[0] for z in ast.walk(fn) if isinstance(z, (ast.Import, ast.ImportFrom)) for a in z.names) | \
+                set(z.name for z in ast.walk(fn) if isinstance(z, ast.ExceptHandler) and z.name)
+            plain = len(binds) == 1      # several records in one function: every field keeps its variable's prefix
+            loc = dict((f, f if (plain and f not in used and not keyword.iskeyword(f)) else '%s__%s' % (v, f)) for f in fields)
             # only worth doing when a field of the variable is read by name / index somewhere
             if not any((isinstance(z, ast.Attribute) and z.attr in loc or isinstance(z, ast.Subscript) and isinstance(z.slice, ast.Constant)) and
                        isinstance(z.value, ast.Name) and z.value.id == v for z in ast.walk(fn)):
